@@ -78,3 +78,30 @@ def exhaustive_cases(tier):
         for c in exhaustive.charts(5, 2): out.append((c, ["e"]))
         for c in exhaustive.charts(6, 1): out.append((c, ["e", "e"]))
     return out
+
+
+def history_revisit_cases(rng, n):
+    """a compound state with a (shallow or deep) history that is left and re-entered through the history several
+    times, with a different child active each time; optionally a second level below one child"""
+    out = []
+    for _ in range(n):
+        kind = rng.choice(["history", "hdeep"])
+        nch = rng.randint(2, 4)
+        kids = []
+        for i in range(nch):
+            nxt = (i + 1) % nch
+            inner = ""
+            if rng.random() < 0.4:
+                inner = " (state c%dx (t m - e (c%dy))) (state c%dy (t m - e (c%dx)))" % (i, i, i, i)
+            kids.append("(state c%d (onentry (log %d E%d)) (t n - e (c%d))%s)" % (i, 10 + i, i, nxt, inner))
+        default = rng.randrange(nch)
+        sx = "(scxml root (state out (onentry (log 1 OUT)) (t b - e (h))) (state p (%s h (t - - e (c%d))) %s (t o - e (out))))" % (kind, default, " ".join(kids))
+        if rng.random() < 0.5:
+            sx = sx.replace("(scxml root (state out", "(scxml root (init p) (state out", 1)
+        d = charts.from_sexpr(sx)
+        evs = []
+        for _ in range(rng.randint(2, 4)):                 # rounds of: move on inside, leave, come back through the history
+            evs += [rng.choice(["n", "n", "m"]) for _ in range(rng.randint(0, 3))] + ["o", "b"]
+        if rng.random() < 0.3: evs.insert(rng.randrange(len(evs)), rng.choice(["o", "b", "n"]))
+        out.append((d, evs))
+    return out
